@@ -2,9 +2,11 @@
   Property C14 (rendering part) — "rendering code twice from the same model registry, or for several frameworks …
   under the same naming options, gives the same text as rendering once from a fresh registry."
 
-  `generate_code` mutates the registry: the constructor of every class generator replaces the model's name by
-  `convert_class_name(name)` (models/base.py:117).  `generateCode` returns the text and the name map after
-  rendering; `withNames g names` is the registry after that rendering.
+  `generate_code` mutates the registry: `_prepare_class_names` converts the name of every model of the structure
+  (`convert_class_name`, through the generator constructor) and adds the model index to converted names that are
+  shared; afterwards the constructor of every class generator converts the name once more (models/base.py).
+  `generateCode` returns the text and the name map after rendering; `withNames g names` is the registry after that
+  rendering.
   Helper development: `J2M/Proofs/Render2*.lean`.
 -/
 import J2M.Proofs.Render2Eval
@@ -32,6 +34,12 @@ abbrev StableOn := Rend2.StableOn
 theorem stableOn_of_namesStable {c : RenderCfg} {o : RenderOracles} {names : NameMap} (h : NamesStable c o names)
     (is : List String) : StableOn c o names is :=
   fun i _ n hn => h i n (mem_of_lookup hn)
+
+/-- `DistinctOn names is`: the recorded names of the models in `is` are pairwise distinct -/
+abbrev DistinctOn := PrepNames.DistinctOn
+/-- the names `_prepare_class_names` computes before anything is rendered -/
+abbrev preparedNames (c : RenderCfg) (o : RenderOracles) (g : Graph) (roots : List Node) : Except PyErr NameMap :=
+  prepareNames c o (names0 g) roots
 
 /-- registry indices are pairwise distinct -/
 def IdxNodup (g : Graph) : Prop := (g.models.map (·.idx)).Nodup
@@ -77,37 +85,64 @@ def render_twice_Statement : Prop :=
   ∀ (c : RenderCfg) (o : RenderOracles) (g : Graph) (roots : List Node) (inj : List (String × String))
     (pre : Option String) (text₁ : String) (names₁ : NameMap),
     IdxNodup g → generateCode c o g roots inj pre = .ok (text₁, names₁) → NamesStable c o names₁ →
+    DistinctOn names₁ (postL roots) →
     generateCode c o (withNames g names₁) roots inj pre = .ok (text₁, names₁)
 
 /-- **render_twice_partial** (`render_twice` for ready structures): let `(text₁, names₁)` be the result of a
     rendering and `g' = withNames g names₁` the registry it leaves behind.  If the registry indices are distinct,
-    the structure is `Ready` and the converted names of its classes are fixed points of `convert_class_name`, then
-    rendering `g'` gives the same text and the same names.
+    the structure is `Ready`, the final names of its classes are fixed points of `convert_class_name` and pairwise
+    distinct (so that the second `_prepare_class_names` leaves them alone), then rendering `g'` gives the same text
+    and the same names.
     Excluded (see `render_twice_Statement_false`): nested structures in which a nested class refers to an enclosing
-    class (or to a class placed later) whose name is changed by the conversion. -/
+    class (or to a class placed later) whose PREPARED name is changed once more by the conversion in the generator
+    constructor.  `render_twice_prepared` below: when the conversion leaves the prepared names alone — the case of
+    the real label functions — no condition on the structure is needed, and the distinctness is a consequence. -/
 theorem render_twice_partial {c : RenderCfg} {o : RenderOracles} {g : Graph} {roots : List Node}
     {inj : List (String × String)} {pre : Option String} {text₁ : String} {names₁ : NameMap}
     (hnd : IdxNodup g) (h : generateCode c o g roots inj pre = .ok (text₁, names₁))
-    (hready : Ready g inj roots) (hs : StableOn c o names₁ (postL roots)) :
+    (hready : Ready g inj roots) (hs : StableOn c o names₁ (postL roots)) (hd : DistinctOn names₁ (postL roots)) :
     generateCode c o (withNames g names₁) roots inj pre = .ok (text₁, names₁) :=
-  render_twice_gen hnd h hready hs
+  render_twice_gen hnd h hready hs hd
+
+/-- **render_twice_prepared**: if `convert_class_name` leaves the names prepared by `_prepare_class_names` alone
+    (`StableOn c o N0 (postL roots)`; with the real label functions a converted name, with or without `_<index>`
+    suffix, is a fixed point), then the rendering ends with exactly the prepared names, they are pairwise distinct,
+    and rendering the registry left behind gives the same text and names — for EVERY structure. -/
+theorem render_twice_prepared {c : RenderCfg} {o : RenderOracles} {g : Graph} {roots : List Node}
+    {inj : List (String × String)} {pre : Option String} {text₁ : String} {names₁ N0 : NameMap}
+    (hnd : IdxNodup g) (h : generateCode c o g roots inj pre = .ok (text₁, names₁))
+    (hN0 : preparedNames c o g roots = .ok N0) (hs : StableOn c o N0 (postL roots)) :
+    names₁ = N0 ∧ DistinctOn names₁ (postL roots) ∧
+    generateCode c o (withNames g names₁) roots inj pre = .ok (text₁, names₁) := by
+  obtain ⟨e, h2⟩ := Rend2.render_twice_prepared hnd h hN0 hs
+  exact ⟨e, (PrepNames.nodup_map_distinct.mp (generateCode_names_nodup h hN0 hs)).2, h2⟩
+
+/-- the distinctness hypothesis of `render_twice_partial` holds whenever the rendering succeeded and the conversion
+    leaves the prepared names alone -/
+theorem distinct_of_prepared_stable {c : RenderCfg} {o : RenderOracles} {g : Graph} {roots : List Node}
+    {inj : List (String × String)} {pre : Option String} {text₁ : String} {names₁ N0 : NameMap}
+    (h : generateCode c o g roots inj pre = .ok (text₁, names₁))
+    (hN0 : preparedNames c o g roots = .ok N0) (hs : StableOn c o N0 (postL roots)) :
+    DistinctOn names₁ (postL roots) :=
+  (PrepNames.nodup_map_distinct.mp (generateCode_names_nodup h hN0 hs)).2
 
 /-- **render_twice** for the flat layout: no condition on the registry besides distinct indices -/
 theorem render_twice_flat {c : RenderCfg} {o : RenderOracles} {g : Graph} {l : List String}
     {inj : List (String × String)} {pre : Option String} {text₁ : String} {names₁ : NameMap}
     (hnd : IdxNodup g) (h : generateCode c o g (l.map (fun i => Node.mk i [])) inj pre = .ok (text₁, names₁))
-    (hs : NamesStable c o names₁) :
+    (hs : NamesStable c o names₁) (hd : DistinctOn names₁ l) :
     generateCode c o (withNames g names₁) (l.map (fun i => Node.mk i [])) inj pre = .ok (text₁, names₁) :=
-  render_twice_partial hnd h (ready_flat g inj l) (stableOn_of_namesStable hs _)
+  render_twice_partial hnd h (ready_flat g inj l) (stableOn_of_namesStable hs _) (by rw [postL, postL_flat]; exact hd)
 
 /-- **render_twice** for nested structures whose classes refer only to classes nested in them (tree-shaped
     registries), each model placed once -/
 theorem render_twice_tree {c : RenderCfg} {o : RenderOracles} {g : Graph} {roots : List Node}
     {inj : List (String × String)} {pre : Option String} {text₁ : String} {names₁ : NameMap}
     (hnd : IdxNodup g) (h : generateCode c o g roots inj pre = .ok (text₁, names₁))
-    (hp : (postL roots).Nodup) (hsub : SubtreeRefs g inj roots) (hs : NamesStable c o names₁) :
+    (hp : (postL roots).Nodup) (hsub : SubtreeRefs g inj roots) (hs : NamesStable c o names₁)
+    (hd : DistinctOn names₁ (postL roots)) :
     generateCode c o (withNames g names₁) roots inj pre = .ok (text₁, names₁) :=
-  render_twice_partial hnd h (ready_of_subtree hp hsub) (stableOn_of_namesStable hs _)
+  render_twice_partial hnd h (ready_of_subtree hp hsub) (stableOn_of_namesStable hs _) hd
 
 /-! #### the whole render job (layout + rendering) on the mutated registry
 
@@ -120,23 +155,27 @@ abbrev renderNested := Rend2.renderNested
 /-- **renderFlat_twice**: a flat render job run again on the registry it left behind gives the same text -/
 theorem renderFlat_twice {c : RenderCfg} {o : RenderOracles} {g : Graph} {pre : Option String} {text₁ : String}
     {names₁ : NameMap} (hnd : IdxNodup g) (h : renderFlat c o g pre = .ok (text₁, names₁))
-    (hs : NamesStable c o names₁) : renderFlat c o (withNames g names₁) pre = .ok (text₁, names₁) := by
+    (hs : NamesStable c o names₁) (hd : DistinctOn names₁ (g.models.map (·.idx))) :
+    renderFlat c o (withNames g names₁) pre = .ok (text₁, names₁) := by
   unfold renderFlat Rend2.renderFlat at h ⊢
   rw [composeFlat_withNames]
   rw [bind_eq_ok] at h ⊢
   obtain ⟨l, hl, hg⟩ := h
-  exact ⟨l, hl, render_twice_flat hnd hg hs⟩
+  exact ⟨l, hl, render_twice_flat hnd hg hs (hd.subset (fun i hi => (LayoutP.composeFlat_perm hl).mem_iff.mp hi))⟩
 
 /-- **renderNested_twice**: the same for a nested render job whose structure is `Ready` -/
 theorem renderNested_twice {c : RenderCfg} {o : RenderOracles} {g : Graph} {pre : Option String} {text₁ : String}
     {names₁ : NameMap} (hnd : IdxNodup g) (h : renderNested c o g pre = .ok (text₁, names₁))
     (hready : ∀ roots inj, composeNested g = .ok (roots, inj) → Ready g inj roots)
-    (hs : NamesStable c o names₁) : renderNested c o (withNames g names₁) pre = .ok (text₁, names₁) := by
+    (hs : NamesStable c o names₁)
+    (hd : ∀ roots inj, composeNested g = .ok (roots, inj) → DistinctOn names₁ (postL roots)) :
+    renderNested c o (withNames g names₁) pre = .ok (text₁, names₁) := by
   unfold renderNested Rend2.renderNested at h ⊢
   rw [composeNested_withNames]
   rw [bind_eq_ok] at h ⊢
   obtain ⟨⟨roots, inj⟩, hl, hg⟩ := h
-  exact ⟨(roots, inj), hl, render_twice_partial hnd hg (hready roots inj hl) (stableOn_of_namesStable hs _)⟩
+  exact ⟨(roots, inj), hl, render_twice_partial hnd hg (hready roots inj hl) (stableOn_of_namesStable hs _)
+    (hd roots inj hl)⟩
 
 /-- **renderNested_twice_tree**: for tree-shaped registries (`LayoutP.Tree` = `C12.Tree`: every model has exactly
     one pointer record) without pointer cycles (`Rooted`) whose fields follow the pointer records, the nested render
@@ -144,20 +183,28 @@ theorem renderNested_twice {c : RenderCfg} {o : RenderOracles} {g : Graph} {pre 
 theorem renderNested_twice_tree {c : RenderCfg} {o : RenderOracles} {g : Graph} {depth : String → Nat}
     {pre : Option String} {text₁ : String} {names₁ : NameMap}
     (hT : LayoutP.Tree g) (hnd : IdxNodup g) (hroot : Rooted g depth) (hff : FieldsFollowPtrs g)
-    (h : renderNested c o g pre = .ok (text₁, names₁)) (hs : NamesStable c o names₁) :
+    (h : renderNested c o g pre = .ok (text₁, names₁)) (hs : NamesStable c o names₁)
+    (hd : DistinctOn names₁ (g.models.map (·.idx))) :
     renderNested c o (withNames g names₁) pre = .ok (text₁, names₁) := by
   apply renderNested_twice hnd h _ hs
-  intro roots inj hr
-  obtain ⟨s, hst, rfl, rfl⟩ := composeNested_tree_state hT hr
-  exact ready_of_subtree ((tree_cover hst hroot hnd).nodup_iff.mpr hnd) (tree_subRefs hst hroot hff)
+  · intro roots inj hr
+    obtain ⟨s, hst, rfl, rfl⟩ := composeNested_tree_state hT hr
+    exact hd.subset (fun i hi => (tree_cover hst hroot hnd).mem_iff.mp hi)
+  · intro roots inj hr
+    obtain ⟨s, hst, rfl, rfl⟩ := composeNested_tree_state hT hr
+    exact ready_of_subtree ((tree_cover hst hroot hnd).nodup_iff.mpr hnd) (tree_subRefs hst hroot hff)
 
 /-! #### the unrestricted statement is false: a nested class that refers to its enclosing class
 
-`1A` (named `class`, converted to `class_`) has a field of type `1B`; `1B` has an optional field of type `1A`.  The
-nested layout puts `1B` inside `1A`; `_generate_code` renders the nested class *before* the generator of the
-enclosing class exists, i.e. before the name `class` is converted: the first rendering prints `Optional['class']`
-(a dangling reference), the second one `Optional['class_']`.  The Python code behaves the same way (sample
-`{"b": {"x": 1, "a": {"b": {"x": 2, "a": null}}}}`, model name `class`, nested layout). -/
+`1A` (named `class`) has a field of type `1B`; `1B` has an optional field of type `1A`; the configuration `badCfg`
+reserves both `class` and `class_`.  `_prepare_class_names` converts `class` to `class_`; the nested layout puts `1B`
+inside `1A`, and `_generate_code` renders the nested class *before* the generator of the enclosing class is created,
+i.e. before the prepared name `class_` is converted once more, to `class__`: the first rendering prints
+`Optional['class_']` (a dangling reference), the second one `Optional['class__']`.  All final names are fixed points
+and pairwise distinct.
+With the configuration of the other examples (only `class` reserved) both renderings of this registry agree
+(`bad_repaired`): since `_prepare_class_names` exists, the failure needs a prepared name that the conversion changes
+again, which the real reserved-word list excludes (`C11.blacklist_suffix_safe`, `C11.label_idempotent`). -/
 
 def badG : Graph where
   models := [{ idx := "1A", fields := [("b", .ptr "1B")], name := some "class" },
@@ -165,31 +212,60 @@ def badG : Graph where
   ptrs := [⟨"1A", none, none⟩, ⟨"1B", some "1A", some "b"⟩, ⟨"1A", some "1B", some "a"⟩]
   counter := 2
 def badRoots : List Node := [.mk "1A" [.mk "1B" []]]
-def badNames : NameMap := [("1A", some "class_"), ("1B", some "B")]
+def badCfg : RenderCfg := { exCfg .dataclasses with blacklist := ["class", "class_"] }
+def badNames : NameMap := [("1A", some "class__"), ("1B", some "B")]
 
 -- this is the nested layout of the registry
 example : composeNested badG = .ok (badRoots, []) := composeNested_of_check (by decide +kernel)
 
-theorem bad_first : generateCode (exCfg .dataclasses) exOracles badG badRoots [] none = .ok
-    ("from dataclasses import dataclass, field\nfrom typing import Optional\n\n\n@dataclass\nclass class_:\n    @dataclass\n    class B:\n        a: Optional['class'] = None\n\n    b: 'B'\n",
+-- the prepared names: `class` has been converted once
+example : (preparedNames badCfg exOracles badG badRoots).toOption = some [("1A", some "class_"), ("1B", some "B")] := by
+  decide +kernel
+
+theorem bad_first : generateCode badCfg exOracles badG badRoots [] none = .ok
+    ("from dataclasses import dataclass, field\nfrom typing import Optional\n\n\n@dataclass\nclass class__:\n    @dataclass\n    class B:\n        a: Optional['class_'] = None\n\n    b: 'B'\n",
      badNames) := generateCode_of_eval (by decide +kernel)
 
-theorem bad_second : generateCode (exCfg .dataclasses) exOracles (withNames badG badNames) badRoots [] none = .ok
-    ("from dataclasses import dataclass, field\nfrom typing import Optional\n\n\n@dataclass\nclass class_:\n    @dataclass\n    class B:\n        a: Optional['class_'] = None\n\n    b: 'B'\n",
+theorem bad_second : generateCode badCfg exOracles (withNames badG badNames) badRoots [] none = .ok
+    ("from dataclasses import dataclass, field\nfrom typing import Optional\n\n\n@dataclass\nclass class__:\n    @dataclass\n    class B:\n        a: Optional['class__'] = None\n\n    b: 'B'\n",
      badNames) := generateCode_of_eval (by decide +kernel)
 
-theorem bad_stable : NamesStable (exCfg .dataclasses) exOracles badNames := by
+theorem bad_stable : NamesStable badCfg exOracles badNames := by
   intro i n h
   simp only [badNames, List.mem_cons, Prod.mk.injEq, Option.some.injEq, List.not_mem_nil, or_false] at h
   rcases h with ⟨_, rfl⟩ | ⟨_, rfl⟩ <;> exact ok_of_toOption (by decide +kernel)
 
+theorem bad_distinct : DistinctOn badNames (postL badRoots) :=
+  (PrepNames.nodup_map_distinct.mp (by decide +kernel)).2
+
 /-- **render_twice_Statement_false** -/
 theorem render_twice_Statement_false : ¬ render_twice_Statement := by
   intro h
-  have h2 := h _ _ _ _ _ _ _ _ (by unfold IdxNodup; decide) bad_first bad_stable
+  have h2 := h _ _ _ _ _ _ _ _ (by unfold IdxNodup; decide) bad_first bad_stable bad_distinct
   rw [bad_second] at h2
   revert h2
   decide +kernel
+
+/-- the registry on which the statement failed before `_prepare_class_names` existed (only `class` reserved): now the
+    nested class is rendered with the converted name of its enclosing class, and both renderings agree -/
+theorem bad_repaired :
+    generateCode (exCfg .dataclasses) exOracles badG badRoots [] none = .ok
+      ("from dataclasses import dataclass, field\nfrom typing import Optional\n\n\n@dataclass\nclass class_:\n    @dataclass\n    class B:\n        a: Optional['class_'] = None\n\n    b: 'B'\n",
+       [("1A", some "class_"), ("1B", some "B")]) ∧
+    generateCode (exCfg .dataclasses) exOracles (withNames badG [("1A", some "class_"), ("1B", some "B")]) badRoots [] none =
+      generateCode (exCfg .dataclasses) exOracles badG badRoots [] none := by
+  have h1 : generateCode (exCfg .dataclasses) exOracles badG badRoots [] none = .ok
+      ("from dataclasses import dataclass, field\nfrom typing import Optional\n\n\n@dataclass\nclass class_:\n    @dataclass\n    class B:\n        a: Optional['class_'] = None\n\n    b: 'B'\n",
+       [("1A", some "class_"), ("1B", some "B")]) := generateCode_of_eval (by decide +kernel)
+  refine ⟨h1, ?_⟩
+  have hN0 : preparedNames (exCfg .dataclasses) exOracles badG badRoots = .ok [("1A", some "class_"), ("1B", some "B")] :=
+    ok_of_toOption (by decide +kernel)
+  have hs : StableOn (exCfg .dataclasses) exOracles [("1A", some "class_"), ("1B", some "B")] (postL badRoots) := by
+    apply stableOn_of_namesStable
+    intro i n h
+    simp only [List.mem_cons, Prod.mk.injEq, Option.some.injEq, List.not_mem_nil, or_false] at h
+    rcases h with ⟨_, rfl⟩ | ⟨_, rfl⟩ <;> exact ok_of_toOption (by decide +kernel)
+  rw [(render_twice_prepared (by unfold IdxNodup; decide) h1 hN0 hs).2.2, h1]
 
 /-! #### non-vacuity of `render_twice_flat` / `render_twice_tree`: a 3-model tree-shaped registry with two names
     that the conversion changes -/
@@ -221,6 +297,8 @@ theorem exTree_stable (fw : Framework) : NamesStable (exCfg fw) exOracles exName
   rcases h with ⟨_, rfl⟩ | ⟨_, rfl⟩ | ⟨_, rfl⟩ <;> cases fw <;> exact ok_of_toOption (by decide +kernel)
 
 theorem exTree_idx : IdxNodup exTree := by unfold IdxNodup; decide
+theorem exTree_distinct_flat : DistinctOn exNames exFlat := (PrepNames.nodup_map_distinct.mp (by decide +kernel)).2
+theorem exTree_distinct : DistinctOn exNames (postL exNested) := (PrepNames.nodup_map_distinct.mp (by decide +kernel)).2
 theorem exTree_post : (postL exNested).Nodup := by decide +kernel
 theorem exTree_sub : SubtreeRefs exTree [] exNested := by
   simp [SubtreeRefs, SubRefsL, SubRefsN, exNested, refsOf, fieldsRefs, closeInj, exTree, Graph.find?, tyRefs]
@@ -228,10 +306,14 @@ theorem exTree_sub : SubtreeRefs exTree [] exNested := by
 -- the hypotheses of the two theorems hold, and their conclusions are the expected equalities
 example : generateCode (exCfg .pydantic) exOracles (withNames exTree exNames) (exFlat.map (fun i => Node.mk i [])) [] none =
     generateCode (exCfg .pydantic) exOracles exTree (exFlat.map (fun i => Node.mk i [])) [] none := by
-  rw [render_twice_flat exTree_idx exTree_flat (exTree_stable _), exTree_flat]
+  rw [render_twice_flat exTree_idx exTree_flat (exTree_stable _) exTree_distinct_flat, exTree_flat]
 example : generateCode (exCfg .pydantic) exOracles (withNames exTree exNames) exNested [] none =
     generateCode (exCfg .pydantic) exOracles exTree exNested [] none := by
-  rw [render_twice_tree exTree_idx exTree_nested exTree_post exTree_sub (exTree_stable _), exTree_nested]
+  rw [render_twice_tree exTree_idx exTree_nested exTree_post exTree_sub (exTree_stable _) exTree_distinct, exTree_nested]
+-- `render_twice_prepared`: the prepared names are the final names, and the conversion leaves them alone
+theorem exTree_prepared : preparedNames (exCfg .pydantic) exOracles exTree exNested = .ok exNames :=
+  ok_of_toOption (by decide +kernel)
+example := render_twice_prepared exTree_idx exTree_nested exTree_prepared (stableOn_of_namesStable (exTree_stable _) _)
 -- the rendering changed the registry: the theorem is not about an unchanged graph
 example : (withNames exTree exNames).models.map (·.name) = [some "class_", some "List_", some "C"] ∧
     exTree.models.map (·.name) = [some "class", some "List", some "C"] := by decide +kernel
@@ -267,9 +349,10 @@ theorem render_twice_oracles {c : RenderCfg} {o : RenderOracles} {g : Graph} {ro
     {inj : List (String × String)} {pre : Option String} {text₁ : String} {names₁ : NameMap}
     (hnd : IdxNodup g) (h : generateCode c o g roots inj pre = .ok (text₁, names₁)) (hready : Ready g inj roots)
     (hbl : C11.SuffixSafe c.blacklist)
-    (hU : UnidecodeFixes c o names₁ (postL roots)) (hS : StripWFixes o names₁ (postL roots)) :
+    (hU : UnidecodeFixes c o names₁ (postL roots)) (hS : StripWFixes o names₁ (postL roots))
+    (hd : DistinctOn names₁ (postL roots)) :
     generateCode c o (withNames g names₁) roots inj pre = .ok (text₁, names₁) :=
-  render_twice_partial hnd h hready (stable_of_oracles h hbl hU hS)
+  render_twice_partial hnd h hready (stable_of_oracles h hbl hU hS) hd
 
 /-! ### 3. the name mutation does not depend on the framework -/
 
@@ -287,8 +370,10 @@ theorem names_fw {c₁ c₂ : RenderCfg} {o : RenderOracles} {g : Graph} {roots 
     (h₁ : generateCode c₁ o g roots inj pre₁ = .ok (t₁, F₁)) (h₂ : generateCode c₂ o g roots inj pre₂ = .ok (t₂, F₂)) :
     F₁ = F₂ := by
   rw [generateCode_ok] at h₁ h₂
-  obtain ⟨_, _, _, r₁, _, _⟩ := h₁
-  obtain ⟨_, _, _, r₂, _, _⟩ := h₂
+  obtain ⟨M₁, _, _, _, p₁, r₁, _, _⟩ := h₁
+  obtain ⟨M₂, _, _, _, p₂, r₂, _, _⟩ := h₂
+  rw [PrepNames.prepareNames_congr (convertClassName_fw hcu hbl o)] at p₁
+  cases p₁.symm.trans p₂
   have e₁ := renderLevel_names _ _ _ _ _ _ _ _ _ _ r₁
   have e₂ := renderLevel_names _ _ _ _ _ _ _ _ _ _ r₂
   rw [convAll_congr (convertClassName_fw hcu hbl o)] at e₁
@@ -303,11 +388,11 @@ theorem cross_framework {c₁ c₂ : RenderCfg} {o : RenderOracles} {g : Graph} 
     (hnd : IdxNodup g)
     (h₁ : generateCode c₁ o g roots inj pre₁ = .ok (t₁, F₁))
     (h₂ : generateCode c₂ o g roots inj pre₂ = .ok (t₂, F₂))
-    (hready : Ready g inj roots) (hs : StableOn c₁ o F₁ (postL roots)) :
+    (hready : Ready g inj roots) (hs : StableOn c₁ o F₁ (postL roots)) (hd : DistinctOn F₁ (postL roots)) :
     generateCode c₂ o (withNames g F₁) roots inj pre₂ = .ok (t₂, F₂) := by
   have e := names_fw hcu hbl h₁ h₂
   subst e
-  apply render_twice_partial hnd h₂ hready
+  apply render_twice_partial hnd h₂ hready _ hd
   intro i hi n hn
   rw [← convertClassName_fw hcu hbl o]
   exact hs i hi n hn
@@ -321,11 +406,11 @@ theorem cross_framework_layouts {c₁ c₂ : RenderCfg} {o : RenderOracles} {g :
     (hnd : IdxNodup g) (hp : (postL roots₁).Perm (postL roots₂)) (hpn : (postL roots₁).Nodup)
     (h₁ : generateCode c₁ o g roots₁ inj₁ pre₁ = .ok (t₁, F₁))
     (h₂ : generateCode c₂ o g roots₂ inj₂ pre₂ = .ok (t₂, F₂))
-    (hready : Ready g inj₂ roots₂) (hs : StableOn c₁ o F₁ (postL roots₁)) :
+    (hready : Ready g inj₂ roots₂) (hs : StableOn c₁ o F₁ (postL roots₁)) (hd : DistinctOn F₁ (postL roots₁)) :
     F₁ = F₂ ∧ generateCode c₂ o (withNames g F₁) roots₂ inj₂ pre₂ = .ok (t₂, F₂) := by
   have e := names_layout_indep (convertClassName_fw hcu hbl o) hnd hp hpn h₁ h₂
   subst e
-  refine ⟨rfl, render_twice_partial hnd h₂ hready ?_⟩
+  refine ⟨rfl, render_twice_partial hnd h₂ hready ?_ (hd.subset (fun i hi => hp.mem_iff.mpr hi))⟩
   intro i hi n hn
   rw [← convertClassName_fw hcu hbl o]
   exact hs i (hp.mem_iff.mpr hi) n hn
@@ -344,13 +429,14 @@ theorem exTree_nested_dc : generateCode (exCfg .dataclasses) exOracles exTree ex
 example : generateCode (exCfg .dataclasses) exOracles (withNames exTree exNames) exNested [] none =
     generateCode (exCfg .dataclasses) exOracles exTree exNested [] none := by
   rw [cross_framework (c₁ := exCfg .pydantic) (c₂ := exCfg .dataclasses) rfl rfl exTree_idx exTree_nested exTree_nested_dc
-    (ready_of_subtree exTree_post exTree_sub) (stableOn_of_namesStable (exTree_stable _) _), exTree_nested_dc]
+    (ready_of_subtree exTree_post exTree_sub) (stableOn_of_namesStable (exTree_stable _) _) exTree_distinct, exTree_nested_dc]
 
 -- pydantic/flat first, then dataclasses/nested on the mutated registry = dataclasses/nested alone
 example : generateCode (exCfg .dataclasses) exOracles (withNames exTree exNames) exNested [] none =
     generateCode (exCfg .dataclasses) exOracles exTree exNested [] none := by
   rw [(cross_framework_layouts (c₁ := exCfg .pydantic) (c₂ := exCfg .dataclasses) rfl rfl exTree_idx
     (by decide +kernel) (by decide +kernel) exTree_flat exTree_nested_dc
-    (ready_of_subtree exTree_post exTree_sub) (stableOn_of_namesStable (exTree_stable _) _)).2, exTree_nested_dc]
+    (ready_of_subtree exTree_post exTree_sub) (stableOn_of_namesStable (exTree_stable _) _)
+    (by rw [postL, postL_flat]; exact exTree_distinct_flat)).2, exTree_nested_dc]
 
 end J2M.C14R
